@@ -259,11 +259,11 @@ def gen_op(w, rng, allow_fresh):
         w._force_add_at = None
         return ("add", fresh_assembly(w, rng), forced)
     kind = rng.choice(choices)
-    if not w.flags and kind == "swap" and rng.random() < 0.15:
-        a = rng.choice(kids)            # swapAssemblies(a, a): a move that ends where it started
+    if kind == "swap" and rng.random() < 0.15:
+        a = rng.choice(kids)            # swapAssemblies(a, a): skipped by the code, with or without stationary blocks
         w._force_add_at = cell_of(a)
         return ("swap", a, a)
-    if not w.flags and kind == "cascade" and rng.random() < 0.3:
+    if kind == "cascade" and rng.random() < 0.3:
         lst = rng.sample(kids, rng.randint(2, 4))     # a cascade naming its first assembly again (the code only warns)
         lst.insert(rng.randint(1, len(lst)), lst[0])
         if rng.random() < 0.5:
@@ -559,7 +559,7 @@ def excluded_points(ctx):
         contents_ok(w, fails, case, "end of stream", list(w.core) + list(w.sfp))
         ctx.distinct.add(("excluded-stream", track, stat))
         ctx.count("excluded: fresh discharge with stationary blocks (track=%s, %s)" % (track, stat))
-    # swapAssemblies(a, a) WITH stationary blocks: outside the model's domain (Pre), judged by the oracle alone
+    # swapAssemblies(a, a) WITH stationary blocks (also generated at random): deterministic probe of the former finding
     w = World(True, "gridplate")
     case = {"stream": "swapAssemblies(a, a) with stationary blocks"}
     a = list(w.core)[5]
